@@ -27,7 +27,7 @@ RULES = {
            'Non-trivial/distinct as C01',
 }
 
-ASSUME = ['regex patterns generated without ^, \\b or look-behind (window semantics of those are undefined by the property)',
+ASSUME = ['anchors and look-around assertions see exactly the searched text (the last W characters under a window) in model and oracle alike',
           'kernel stub rules (simpex/kernel.py) match Linux for what pexpect observes',
           'no wall-clock steps; complete writes on blocking descriptors']
 
